@@ -3,7 +3,8 @@
    followed by Print Assumptions.  The tables are REGENERATED from the checked tree on every run
    (tools/tr_c02_*.py -> coq/gen/*.v), so these theorems are re-checked against what the code says now. *)
 From Coq Require Import ZArith List Bool.
-From MirV Require Import Mir.DocSpec Mir.CExpr C02.RowCheck C02.Table gen.InterpTable C02.InterpFacts.
+From MirV Require Import Mir.DocSpec Mir.CExpr C02.RowCheck C02.Table gen.InterpTable C02.InterpFacts
+  C02.GvnCheck gen.GvnFoldTable C02.GvnFacts.
 
 (* Interpreter (mir-interp.c): for every row of the regenerated table (every value, compare, branch
    and overflow opcode) and ALL operand values on which MIR.md defines the instruction, the row's C
@@ -37,3 +38,11 @@ Theorem overflow_flags_sound : forall op s, In (op, s) interp_table ->
     /\ (fst (ovf_defined op) = true -> fs = Some sf) /\ (snd (ovf_defined op) = true -> fu = Some uf).
 Proof. exact interp_overflow_flags. Qed.
 Print Assumptions overflow_flags_sound.
+
+(* Generator, GVN constant folding (mir-gen.c gvn_modify): for every row of the regenerated fold table
+   (ext, neg, integer arithmetic/logic/shift/compare, compare-and-branch, BT/BF, and the value of the
+   overflow instructions) and ALL constant operand values on which MIR.md defines the instruction, the
+   constant substituted at compile time / the branch decision taken at compile time is the documented one *)
+Theorem gvn_fold_row_sound : forall op g s, In (op, g, s) gvn_table -> gvn_row_sound op s.
+Proof. exact gvn_rows_sound. Qed.
+Print Assumptions gvn_fold_row_sound.
